@@ -232,7 +232,12 @@ func RunReplay(t *testing.T, fns map[string]func()) {
 				defer func() {
 					if !done {
 						if x := recover(); x != nil {
-							r = result{Idx: v.Idx, Status: "leftover", Detail: fmt.Sprint(x), Obs: cur.obs}
+							if r.Status == "" || r.Status == "ok" {
+								r = result{Idx: v.Idx, Status: "leftover", Detail: fmt.Sprint(x), Obs: cur.obs}
+							} else {
+								// the harness stopped early (assertion failed etc.); goroutines it left behind are expected
+								r.Detail += " | bubble: " + fmt.Sprint(x)
+							}
 						}
 					}
 				}()
